@@ -52,7 +52,7 @@ def main(argv):
             jobs.append(['decomp'] + sample_binaries() + spec_corpus)
             jobs.append(['defects'])
             if tier == 'quick':
-                jobs += [['lits', 8], ['floats', 6000, 60], ['exprs', 3000, 2, 400], ['stmts', 2000, 2, 260], ['soup', 800], ['mutate', 700], ['chains', 500]]
+                jobs += [['lits', 3], ['floats', 6000, 150], ['exprs', 3000, 2, 200], ['stmts', 2000, 2, 140], ['soup', 500], ['mutate', 400], ['chains', 300]]
             else:
                 jobs += [['lits', 60], ['floats', 4200000, 2500], ['soup', 8000], ['mutate', 6000], ['chains', 4000]]
                 jobs += [['exprs', 5000, 3, 700 if k == 0 else 0, 'allwidths'] for k in range(4)]
@@ -83,7 +83,7 @@ def main(argv):
                     {'class': cls, 'input': f[2] if len(f) > 2 else '', 'printed_text': f[3] if len(f) > 3 else '', 'what_oracle': f[1]})
 
     t_h = time.time()
-    shard = max(120, (len(cases) + 15) // 16) if tier == 'quick' else 1200
+    shard = max(150, (len(cases) + 9) // 10) if tier == 'quick' else 1200
     if v.corr_ok and cases:
         mism, errs = coq_eval_cases(PROP, IMPORTS, 'c08case', cases, shard=shard, imports='Open Scope string_scope.')
         v.obligation('correspondence: model = implementation on %d cases (printer text at the given width, lexing certificate, logos tokens, LALRPOP parse result; vm_compute inside Coq)' % len(cases),
